@@ -140,20 +140,37 @@ def monitor(ctx, extended=False):
             ctx.count('evaluations')
             try:
                 before = set(os.listdir(tmp))
-                with warnings.catch_warnings():
-                    warnings.simplefilter('ignore')
-                    if ctx.rng.random() < 0.5:
-                        base_pl.name = 'p'
-                        path = S.store_to_excel(base_pl, fname=n, path=tmp)
-                    else:
-                        # a pipeline name is written into a cell: Excel (openpyxl) cannot hold C0 control characters other than tab/newline/CR
-                        base_pl.name = re.sub('[\x00-\x08\x0b\x0c\x0e-\x1f\ud7ff]', '', n)
-                        n = base_pl.name
-                        path = S.store_to_excel(base_pl, path=tmp)
+                # the requested folder as an absolute path, or relative to the current directory ('.', a sub-folder name, '../<folder>')
+                how = ctx.rng.choice(['abs', 'abs', 'dot', 'rel-parent']) if i % 4 == 1 else 'abs'
+                cwd0 = os.getcwd()
+                folder = tmp
+                if how == 'dot':
+                    os.chdir(tmp)
+                    folder = '.'
+                elif how == 'rel-parent':
+                    os.chdir(os.path.dirname(tmp))
+                    folder = os.path.basename(tmp)
+                try:
+                    with warnings.catch_warnings():
+                        warnings.simplefilter('ignore')
+                        if ctx.rng.random() < 0.5:
+                            base_pl.name = 'p'
+                            path = S.store_to_excel(base_pl, fname=n, path=folder)
+                        else:
+                            # a pipeline name is written into a cell: Excel (openpyxl) cannot hold C0 control characters other than tab/newline/CR
+                            base_pl.name = re.sub('[\x00-\x08\x0b\x0c\x0e-\x1f\ud7ff]', '', n)
+                            n = base_pl.name
+                            path = S.store_to_excel(base_pl, path=folder)
+                    path = os.path.abspath(path)
+                finally:
+                    os.chdir(cwd0)
                 new = set(os.listdir(tmp)) - before
                 bn = os.path.basename(path)
-                if os.path.dirname(os.path.abspath(path)) != os.path.abspath(tmp) or not SAFE.match(bn) or (new and new != {bn}):
-                    ctx.violation(f'file written as {path!r} (new files {sorted(new)}) for requested name {n!r}', {'requested': n}, key='file-name')
+                if os.path.dirname(os.path.abspath(path)) != os.path.abspath(tmp) or not SAFE.match(bn) or new != {bn}:
+                    ctx.violation(f'file written as {path!r} (new files in the requested folder {sorted(new)}) for requested name {n!r}, folder given as {folder!r} ({how})',
+                                  {'requested': n, 'folder': how}, key='file-name')
+                    if not new and os.path.isfile(path) and os.path.basename(os.path.dirname(path)) != os.path.basename(tmp):
+                        os.remove(path)
                 for f in new:
                     os.remove(os.path.join(tmp, f))
                 k += 1
@@ -188,7 +205,24 @@ def monitor(ctx, extended=False):
                     twin = G.clone_pump(pumps[0])
                 secs.insert(len(secs) - 1, twin)
                 pl = Pipeline(name=pl.name, pipe_list=secs, slurry=pl.slurry)
+            force_curve = (i % 3 == 1)
+            if force_curve and not any((not isinstance(s_, Pipe)) and s_.limited == 'curve' for s_ in secs):
+                # every third pipeline has at least one pump limited by a driver curve
+                secs.insert(len(secs) - 1, G.random_pump(ctx.rng, mode='curve'))
+                pl = Pipeline(name=pl.name, pipe_list=secs, slurry=pl.slurry)
             pl = share_flow_list(pl, ctx.rng, runout=True)
+            if force_curve or ctx.rng.random() < 0.5:
+                # driver curves tabulated from standstill: a first point (0 Hz, 0 kW)
+                from DHLLDV.DriverObj import Driver
+                from DHLLDV.DHLLDV_Utils import interpDict
+                secs2 = []
+                for sct in pl.pipesections:
+                    if not isinstance(sct, Pipe) and sct.limited == 'curve' and sct.driver is not None and 0.0 not in sct.driver.design_power_curve:
+                        pts_ = dict(sct.driver.design_power_curve)
+                        pts_[0.0] = 0.0
+                        sct = G.clone_pump(sct, driver=Driver(name=sct.driver.name, design_power_curve=interpDict(pts_)))
+                    secs2.append(sct)
+                pl = Pipeline(name=pl.name, pipe_list=secs2, slurry=pl.slurry)
             desc = G.describe(pl)
             ctx.count('evaluations')
             try:
@@ -202,7 +236,11 @@ def monitor(ctx, extended=False):
                     qmax = min([max(s.design_QH_curve.keys()) for s in pl.pipesections if not isinstance(s, Pipe)] + [1e9])
                     for Q in G.flows_for(ctx.rng, pl, 2):
                         Q = min(Q, qmax * 0.95)
-                        a, b = pl.calc_system_head(Q), q.calc_system_head(Q)
+                        try:
+                            a = pl.calc_system_head(Q)
+                        except Exception:   # noqa  (whether the pipeline itself can be evaluated at Q is not a round-trip matter)
+                            continue
+                        b = q.calc_system_head(Q)
                         if not all(rel_close(x, y, 1e-9) or abs(x - y) < 1e-9 for x, y in zip(a, b)):
                             bad = f'heads at Q={Q}: {b} != {a}'
                 if bad:
